@@ -8,10 +8,13 @@
    Vacuity guards: with Design in {"chopdrop", "notrunc", "styleslip", "breakfit"} (a chop that
    loses the character at the break, no final truncate, a style that slips over a break, a word
    broken although it fits on the next line) TLC must report InvA/InvB, InvB, InvC, InvD violated.
-   M2: CONSTRAINT Emit prints every class string (replayed on the real Text.wrap by drivers/c02.py). *)
+   M2: CONSTRAINT Emit prints every class string (replayed on the real Text.wrap by drivers/c02.py).
+   With Extra = TRUE two more classes take part:  U IDEOGRAPHIC SPACE (whitespace two cells wide) and
+   V NO-BREAK SPACE (whitespace that is not " ": Lines.justify("full") does not split there).
+   Overflow "ignore" is enumerated both as the wrap argument and as the Text's own attribute (ovarg). *)
 EXTENDS Wrap, Json
 
-CONSTANTS MaxLen, MaxWidth, Design, TabSizes
+CONSTANTS MaxLen, MaxWidth, Design, TabSizes, Extra
 
 VARIABLE s
 vars == <<s>>
@@ -25,12 +28,15 @@ CharOf(cls, i) ==
       [] cls = "S" -> Ch(SP, 1, i, <<{i}, i>>)
       [] cls = "T" -> Ch(TAB, 0, i, <<{i}, i>>)
       [] cls = "L" -> Ch(NL, 0, i, <<{i}, i>>)
+      [] cls = "U" -> Ch(12288, 2, i, <<{i}, i>>)
+      [] cls = "V" -> Ch(160, 1, i, <<{i}, i>>)
 Chars(str) == [i \in DOMAIN str |-> CharOf(str[i], i)]
 
 HasTab(str) == \E i \in DOMAIN str : str[i] = "T"
 Inputs(str) ==
-    {[chars |-> Chars(str), width |-> w, justify |-> j, overflow |-> o, no_wrap |-> nw, tab |-> t] :
-        w \in 2..MaxWidth, j \in Justifies, o \in Overflows, nw \in BOOLEAN,
+    {[chars |-> Chars(str), width |-> w, justify |-> j, overflow |-> om[1], ovarg |-> om[2], no_wrap |-> nw, tab |-> t] :
+        w \in 2..MaxWidth, j \in Justifies,
+        om \in {<<o, o>> : o \in Overflows} \cup {<<"ignore", "none">>}, nw \in BOOLEAN,
         t \in IF HasTab(str) THEN TabSizes ELSE {CHOOSE x \in TabSizes : TRUE}}
 \* no_wrap together with overflow = ignore is the same call path as overflow = ignore
 Configs(str) == {I \in Inputs(str) : ~(I.no_wrap /\ I.overflow = "ignore")}
@@ -43,7 +49,9 @@ AddZ == On /\ Len(s) < MaxLen /\ s' = Append(s, "Z")
 AddS == On /\ Len(s) < MaxLen /\ s' = Append(s, "S")
 AddT == On /\ Len(s) < MaxLen /\ s' = Append(s, "T")
 AddL == On /\ Len(s) < MaxLen /\ s' = Append(s, "L")
-Next == AddN \/ AddW \/ AddZ \/ AddS \/ AddT \/ AddL
+AddU == Extra /\ Len(s) < MaxLen /\ s' = Append(s, "U")
+AddV == Extra /\ Len(s) < MaxLen /\ s' = Append(s, "V")
+Next == AddN \/ AddW \/ AddZ \/ AddS \/ AddT \/ AddL \/ AddU \/ AddV
 Spec == Init /\ [][Next]_vars
 
 InvWrap == \A I \in Configs(s) : WrapWhy(I, RefWrapD(I, Design)) = "ok"
